@@ -482,12 +482,11 @@ def _geometry(case):
     """-> dict with everything the model and the code under test need.  All quantities of the
     *model* are integers; the float quantities handed to the code are derived from them."""
     dim = case["dim"]
-    fam, rep = case["family"], case["rep"]
-    S, D = case["src_shape"], case["dst_shape"]
+    fam = case["family"]
+    D = case["dst_shape"]
     h = case["h"]
     ks = _k_src_effective(case)
     g = {"dim": dim}
-    nang = 1 if dim == 2 else 3
     turns = list(case["turns"])
     # forward quarter-turn matrix in the composition order used for several angles is taken
     # from the object itself (see _check_warp); here only the single-axis / 2-D standard one
@@ -680,7 +679,6 @@ def _cmp(got, want, what, case, tags, V, Vs):
         raise Violation("warp-shape", f"{what}: shape/dtype {got.shape}/{got.dtype}, expected "
                         f"{want.shape}/{want.dtype}", tags)
     if not np.array_equal(got, want):
-        dim = case["dim"]
         diff = (got != want).reshape(tuple(case["dst_shape"]) + (-1,)).any(axis=-1)
         v = np.argwhere(diff)[0]
         row = int(np.flatnonzero(np.all(V == v, axis=1))[0])
@@ -694,7 +692,6 @@ def _cmp(got, want, what, case, tags, V, Vs):
 
 
 def check_warp_exact(case):
-    dim = case["dim"]
     tags, g, spec, src, host, T = _setup_warp(case)
     V, Vs = _set_exact(T, case, g, tags)
     tc = darsia.TransformationCorrection(src.coordinatesystem, host.coordinatesystem, T)
@@ -914,8 +911,8 @@ _RULE = ("points: Hypothesis draws dimension 2/3, translation in +-1e3, scaling 
          ">= 1 voxel or quarter turn of a non-square image or src != dst system or >= 2 turned axes "
          "(warps); distinct = the case")
 
-_N_PT = {"quick": 5000, "thorough": 100000}
-_SH4 = {"quick": 2, "thorough": 12}
+_N_PT = {"quick": 5000, "thorough": 64000}
+_SH4 = {"quick": 2, "thorough": 16}
 
 PROP = Prop(
     pid="C09",
@@ -933,8 +930,7 @@ PROP = Prop(
         "roundtrip tolerance 1e-9 (1+|x|+|t|) max(s,1/s)",
     ],
     subs=[
-        Sub("inverse_roundtrip", check_inverse_roundtrip, gen=gen_roundtrip, n=_N_PT,
-            shards={"quick": 2, "thorough": 16}),
+        Sub("inverse_roundtrip", check_inverse_roundtrip, gen=gen_roundtrip, n=_N_PT, shards=_SH4),
         Sub("rotation_orthonormal", check_rotation_orthonormal, gen=gen_rotation, n=_N_PT, shards=_SH4),
         Sub("documented_action", check_documented_action, gen=gen_action, n=_N_PT, shards=_SH4),
         Sub("array_vs_single", check_array_vs_single, gen=gen_array_single, n=_N_PT, shards=_SH4),
